@@ -32,7 +32,7 @@ RULE = ("programs as in C01 plus handlers inserted at the front of exception_han
         "distinct = distinct JSON")
 TRUSTED = ["a logging subclass of testtools.TestResult is the observation device (outcome calls, wasSuccessful())"]
 ASSUMPTIONS = ["the result object and addOnException handlers do not raise",
-               "user-inserted handlers report exactly one outcome to the result",
+               "user-inserted handlers report exactly one outcome to the result, and not a success",
                "fixtures raise single exceptions; new-style _setUp and fixture cleanups raise Exception-derived ones"]
 EXPLANATION = ("Theorems in coq/Props/C03.v over all programs; correspondence: TestCase.run of a generated "
                "testtools.TestCase subclass against a logging testtools.TestResult, compared with coq/Model/Run.v on "
@@ -64,7 +64,7 @@ HANDLER_SETS = [
     [],
     [(R.CUSTOM, "skip")],
     [(R.CUSTOM, "failure"), (R.CUSTOMBASE, "error")],
-    [(R.CUSTOMSUB, "success"), (R.CUSTOM, "xfail")],
+    [(R.CUSTOMSUB, "skip"), (R.CUSTOM, "xfail")],
     [(R.CUSTOM, "uxsuccess"), ("Kbd", "skip")],
     [(R.SUBFAIL, "skip"), (R.CUSTOMBASE, "skip")],
 ]
@@ -79,7 +79,7 @@ def generate(rng, tier):
         R.mkprog(setup=[["cleanup", 10, [["raise", E("Skip", 1)]]]], body=[["raise", E("Fail", 1)]]),
         R.mkprog(body=[["raise", E("Fail")]], teardown=[["raise", E("Skip", 1)]]),
         R.mkprog(body=[["raise", E("ValueError")]], teardown=[["xfailcall", 1, E("Fail")]]),
-        R.mkprog(body=[["raise", E("ValueError")]], teardown=[["raise", E(R.CUSTOM)]], handlers=[(R.CUSTOM, "success")]),
+        R.mkprog(body=[["raise", E("ValueError")]], teardown=[["raise", E(R.CUSTOM)]], handlers=[(R.CUSTOM, "skip")]),
         R.mkprog(body=[["raise", M(E("Fail"), E("Skip", 1))]]),
         R.mkprog(body=[["raise", E("Skip", 1)]], teardown=[["raise", E("Fail")]]),
         R.mkprog(body=[["expect", []]], teardown=[["raise", E("Skip", 1)]]),
@@ -88,8 +88,8 @@ def generate(rng, tier):
         R.mkprog(body=[["raise", E(R.SUBKBD)]], teardown=[["raise", E("ValueError")]], handlers=[("Kbd", "skip")]),
         R.mkprog(xfail=True, body=[["raise", E("Skip", 1)]]),
         R.mkprog(xfail=True, body=[]),
-        R.mkprog(body=[["raise", E(R.CUSTOMSUB)]], handlers=[(R.CUSTOMSUB, "success"), (R.CUSTOM, "failure")]),
-        R.mkprog(body=[["raise", E(R.CUSTOMSUB)]], handlers=[(R.CUSTOM, "failure"), (R.CUSTOMSUB, "success")]),
+        R.mkprog(body=[["raise", E(R.CUSTOMSUB)]], handlers=[(R.CUSTOMSUB, "uxsuccess"), (R.CUSTOM, "failure")]),
+        R.mkprog(body=[["raise", E(R.CUSTOMSUB)]], handlers=[(R.CUSTOM, "failure"), (R.CUSTOMSUB, "uxsuccess")]),
     ]
     cases += [{"prog": p} for p in fixed]
     names = list(R.ALLB)
